@@ -371,7 +371,7 @@ def to_cfg(run):
     run.function_under_contract("genlm.grammar.wfsa.base.WFSA.to_cfg", source.sha(fn))
     EPS = ""
     qi, qf, p, q, p2, q2 = (S.sym(n) for n in ("qi", "qf", "p", "q", "p2", "q2"))
-    a = S.sym("a")
+    a = "a"
     wi, wf_, w1, w2 = (I.Z(z3.Const(n, G.W)) for n in ("wi", "wf", "w1", "w2"))
     S0 = S.sym("S0")
     for rec_dir in ("right", "left"):
@@ -397,7 +397,9 @@ def to_cfg(run):
             it.natives["genlm.grammar.cfg.CFG"] = I.Native("CFG", CFGc)
             it.natives["genlm.grammar.cfg._gen_nt"] = I.Native("_gen_nt", lambda i2, x, k: S0)
             alphabet = {"a", EPS}
-            selfobj = Bag(R=Bag(), alphabet=alphabet, I=[(qi, wi)], F=[(qf, wf_)],
+            for st_ in (qi, qf, p, q, p2, q2):
+                path.assume(st_.e != S0.e)      # states are not named like the start symbol (else they are renamed: wf obligation below)
+            selfobj = Bag(R=Bag(), alphabet=alphabet, I=[(qi, wi)], F=[(qf, wf_)], states=[qi, qf, p, q, p2, q2],
                           arcs=I.Native("arcs", lambda i2, x, k: [(p, a, q, w1), (p2, EPS, q2, w2)]))
             fobj = I.FuncObj(fn, I.Env(None, {"EPSILON": EPS}), "WFSA.to_cfg")
             it.call_func(fobj, [selfobj], {"S": S0, "recursion": rec_dir})
@@ -409,9 +411,9 @@ def to_cfg(run):
             run.obligation(name, "out-of-subset", role="auxiliary", detail=str(e))
             continue
         if rec_dir == "right":
-            want = [(wi, S0, qi), (wf_, qf), (w1, p, a, q), (w2, p2, q2)]
+            want = [(wi, S0, qi), (wf_, qf), (w1, p, "a", q), (w2, p2, q2)]
         else:
-            want = [(wf_, S0, qf), (wi, qi), (w1, q, p, a), (w2, q2, p2)]
+            want = [(wf_, S0, qf), (wi, qi), (w1, q, p, "a"), (w2, q2, p2)]
         ok = True
         why = None
         for path, (have, made) in results:
@@ -423,3 +425,56 @@ def to_cfg(run):
         else:
             run.obligation(name, "refuted", role="auxiliary", backend="pyvc", detail=f"{why[0]} {_show(why[1]) if why else ''}",
                            replay=dict(replayed=False), signature=f"to_cfg:{rec_dir}")
+
+
+def to_cfg_wf(run):
+    """C17/wfsa.base.WFSA.to_cfg/wf-N-disjoint-V: a state named like an alphabet symbol never becomes a nonterminal of that name."""
+    name = "C17/wfsa.base.WFSA.to_cfg/wf-N-disjoint-V"
+    fn = source.find(BASE, "WFSA.to_cfg")
+    wi, wf_, w1 = (I.Z(z3.Const(n, G.W)) for n in ("wi", "wf", "w1"))
+    bad = []
+    for rec_dir in ("right", "left"):
+        adds = []
+        fresh = []
+
+        def gen(i2, x, k):
+            nm = f"fresh{len(fresh)}"
+            fresh.append(nm)
+            return nm
+
+        it = I.Interp(I.Path([]))
+
+        class G_:
+            def __pyvc_getattr__(self, interp, nm, node):
+                if nm == "add":
+                    return I.Native("add", lambda i2, x, k: adds.append(tuple(x)))
+                raise I.OutOfSubset("cfg." + nm)
+
+        made = {}
+        it.natives["genlm.grammar.cfg.CFG"] = I.Native("CFG", lambda i2, x, k: (made.update(k), G_())[1])
+        it.natives["genlm.grammar.cfg._gen_nt"] = I.Native("_gen_nt", gen)
+        # the automaton of WFSA.from_string("a"): states "" and "a", alphabet {"a"}; state "a" is also a symbol.  State "s" is the start name.
+        selfobj = Bag(R=Bag(), alphabet={"a"}, states=["s1", "a", "S"], I=[("s1", wi)], F=[("a", wf_)],
+                      arcs=I.Native("arcs", lambda i2, x, k: [("s1", "a", "a", w1), ("a", "a", "S", w1)]))
+        fobj = I.FuncObj(fn, I.Env(None, {"EPSILON": ""}), "WFSA.to_cfg")
+        try:
+            it.call_func(fobj, [selfobj], {"S": "S", "recursion": rec_dir})
+        except (I.OutOfSubset, I.PyRaise) as e:
+            run.obligation(name, "out-of-subset", detail=str(e))
+            return
+        V = made.get("V", set())
+        for rule in adds:
+            w, head, *body = rule
+            # positions: right recursion (i, a, j) / left (j: i a); the terminal is the position that was the arc label
+            nts = [head] + [y for k, y in enumerate(body) if not (len(body) == 2 and ((rec_dir == "right" and k == 0) or (rec_dir == "left" and k == 1)))]
+            for y in nts:
+                if y in V:
+                    bad.append(f"{rec_dir}: nonterminal position holds alphabet symbol {y!r} in rule {_show(rule)}")
+        heads = {r[1] for r in adds}
+        if "S" in {y for r in adds for y in r[2:]}:
+            bad.append(f"{rec_dir}: a state named like the start symbol is conflated with it")
+    if bad:
+        run.obligation(name, "refuted", backend="pyvc", detail=bad[0], model={"problems": bad},
+                       replay=dict(replayed=False, problems=bad, hint="WFSA.from_string('ab', Float).to_cfg()('ab')"), signature="to_cfg:N-V-clash")
+    else:
+        run.obligation(name, "proved", backend="pyvc", detail="states named like an alphabet symbol or like S are renamed (fresh) consistently in both recursion directions")
